@@ -37,6 +37,8 @@ fn main() {
         }
         "threads" => {
             let rep = arg_after(&args, "--repeat").map(|s| s.parse().unwrap()).unwrap_or(1);
+            threads::set_align(args.iter().any(|a| a == "--align"));
+            threads::set_jitter(arg_after(&args, "--jitter").map(|s| s.parse().unwrap()).unwrap_or(0));
             threads::replay(&args[2], &args[3], rep);
         }
         "algo" => algo::run(&args[2], &args[3]),
